@@ -141,6 +141,9 @@ class CutplaceApp(object):
         assert cid_path is not None
         new_cid = interface.Cid()
         _log.info('read CID from "%s"', cid_path)
+        # Make sure the CID can be accessed at all, see validate().
+        with open(cid_path, "rb"):
+            pass
         cid_rows = rowio.auto_rows(cid_path)
         new_cid.read(cid_path, cid_rows)
         self.cid = new_cid
@@ -157,6 +160,10 @@ class CutplaceApp(object):
 
         _log.info('validate "%s"', data_path)
 
+        # Make sure the data can be accessed at all so that problems of the environment are not mistaken for
+        # broken data, no matter how the reader of the respective format deals with them.
+        with open(data_path, "rb"):
+            pass
         try:
             with validio.Reader(self.cid, data_path, validate_until=self.validate_until) as reader:
                 reader.validate_rows()
